@@ -448,6 +448,21 @@ class Tr:
                 return E(*self.attrs[src])
             if src in self.consts:
                 return E(*self.consts[src])
+            # attribute PATHS applied to any expression of a given type: ".name.value" -> (lean function, argument type, result type)
+            path, base, cands = "", e, []
+            while isinstance(base, ast.Attribute):
+                path = "." + base.attr + path
+                base = base.value
+                if path in self.attrs:
+                    cands.append((path, base))
+            for path, base in reversed(cands):   # longest path first
+                fn, arg_ty, res_ty = self.attrs[path]
+                try:
+                    x = self.expr(base)
+                except Untranslatable:
+                    continue
+                if x.ty == arg_ty:
+                    return self.lift([x], lambda ts: ("(%s %s)" % (fn, ts[0]), res_ty))
             raise Untranslatable("attribute " + src)
         if isinstance(e, ast.Tuple):
             es = [self.expr(x) for x in e.elts]
@@ -597,9 +612,9 @@ class Tr:
                     return E("(match %s with | .error e__ => Except.error e__ | .ok %s => %s)" % (r.text, v, v), ext.ret, True)
                 return E(r.text, ext.ret, True)
             return r
-        if e.keywords:
+        if e.keywords and src != "sorted":
             raise Untranslatable("keyword arguments in call of " + src)
-        if isinstance(fn, ast.Name):
+        if isinstance(fn, ast.Name) and not e.keywords:
             n, args = fn.id, e.args
             if n == "len" and len(args) == 1:
                 x = self.expr(args[0])
@@ -618,9 +633,41 @@ class Tr:
                     raise Untranslatable("enumerate of " + lean_ty(x.ty))
                 self.constructs.add("enumerate")
                 return self.lift([x], lambda ts: ("(Py.enumerate %s)" % ts[0], TList(("Tuple", INT, x.ty[1]))))
-            if n == "isinstance" and len(args) == 2 and isinstance(args[1], ast.Name) and args[1].id in self.isinstance_map:
-                x = self.expr(args[0])
-                return self.lift([x], lambda ts: ("(%s %s)" % (self.isinstance_map[args[1].id], ts[0]), BOOL))
+            if n == "isinstance" and len(args) == 2:
+                classes = list(args[1].elts) if isinstance(args[1], ast.Tuple) else [args[1]]
+                keys = [ast.unparse(c) for c in classes]
+                if all(k in self.isinstance_map for k in keys):
+                    x = self.expr(args[0])
+                    return self.lift([x], lambda ts: (
+                        "(" + " || ".join("(%s %s)" % (self.isinstance_map[k], ts[0]) for k in keys) + ")", BOOL))
+            if n == "zip" and len(args) == 2:
+                a, b = self.expr(args[0]), self.expr(args[1])
+                if all(isinstance(x.ty, tuple) and x.ty[0] == "List" for x in (a, b)):
+                    self.constructs.add("zip")
+                    return self.lift([a, b], lambda ts: ("(List.zip %s %s)" % tuple(ts), TList(("Tuple", a.ty[1], b.ty[1]))))
+            if n in ("all", "any") and len(args) == 1 and isinstance(args[0], ast.GeneratorExp):
+                return self.quantifier(n, args[0])
+        if isinstance(fn, ast.Name) and fn.id == "sorted" and len(e.args) == 1 and [k.arg for k in e.keywords] == ["key"] \
+                and isinstance(e.keywords[0].value, ast.Lambda) and "sorted_lt" in self.consts:
+            # sorted(xs, key=lambda a: k) -> the stable insertion sort of the prelude, `<` on keys from the spec
+            lam = e.keywords[0].value
+            if len(lam.args.args) != 1 or lam.args.defaults or lam.args.vararg or lam.args.kwarg:
+                raise Untranslatable("key function " + ast.unparse(lam))
+            x = self.expr(e.args[0])
+            if not (isinstance(x.ty, tuple) and x.ty[0] == "List"):
+                raise Untranslatable("sorted of " + lean_ty(x.ty))
+            v = lam.args.args[0].arg
+            saved = self.env.get(v)
+            self.env[v] = x.ty[1]
+            k = self.expr(lam.body)
+            if saved is None:
+                del self.env[v]
+            else:
+                self.env[v] = saved
+            if k.partial:
+                raise Untranslatable("partial key function")
+            self.constructs.add("sorted(key=lambda) -> Py.sortedBy (stable insertion sort)")
+            return self.lift([x], lambda ts: ("(Py.sortedBy %s (fun %s => %s) %s)" % (self.consts["sorted_lt"][0], v, k.text, ts[0]), x.ty))
         if isinstance(fn, ast.Attribute):
             if fn.attr == "lstrip" and len(e.args) == 1 and isinstance(e.args[0], ast.Constant) and isinstance(e.args[0].value, str):
                 x = self.expr(fn.value)
@@ -633,6 +680,37 @@ class Tr:
                 self.constructs.add("str.join")
                 return self.lift([x], lambda ts: ("(Py.join %s %s)" % (_codes(fn.value.value), ts[0]), TEXT))
         raise Untranslatable("call " + ast.unparse(e))
+
+    def quantifier(self, which, g):
+        """all(... for x in xs) / any(...): List.all / List.any with a pure body"""
+        if len(g.generators) != 1 or g.generators[0].ifs or g.generators[0].is_async:
+            raise Untranslatable("generator " + ast.unparse(g))
+        gen = g.generators[0]
+        it = self.expr(gen.iter)
+        if not (isinstance(it.ty, tuple) and it.ty[0] == "List"):
+            raise Untranslatable("generator over " + lean_ty(it.ty))
+        elem = it.ty[1]
+        if isinstance(gen.target, ast.Name):
+            targets, tys = [gen.target.id], [elem]
+        elif isinstance(gen.target, ast.Tuple) and all(isinstance(x, ast.Name) for x in gen.target.elts) \
+                and isinstance(elem, tuple) and elem[0] == "Tuple" and len(elem) - 1 == len(gen.target.elts):
+            targets, tys = [x.id for x in gen.target.elts], list(elem[1:])
+        else:
+            raise Untranslatable("generator target " + ast.unparse(gen.target))
+        saved = {t: self.env.get(t) for t in targets}
+        for t, ty in zip(targets, tys):
+            self.env[t] = ty
+        body = self.test(g.elt)
+        for t, old in saved.items():
+            if old is None:
+                del self.env[t]
+            else:
+                self.env[t] = old
+        if body.partial:
+            raise Untranslatable("partial operation inside a generator expression")
+        self.constructs.add("all/any(generator) -> List.all / List.any")
+        pat = targets[0] if len(targets) == 1 else "(" + ", ".join(targets) + ")"
+        return self.lift([it], lambda ts: ("(List.%s %s (fun %s => %s))" % (which, ts[0], pat, body.text), BOOL))
 
     # ---- statements ------------------------------------------------------
     def assign(self, name, ty):
